@@ -49,7 +49,9 @@ func (node *tagIfchangedNode) Execute(ctx *ExecutionContext, writer TemplateWrit
 			if err != nil {
 				return err
 			}
-			nowValues = append(nowValues, val)
+			// remember the value as it is now: a field of a record that is updated in place (forloop.Counter)
+			// would otherwise always equal itself
+			nowValues = append(nowValues, AsValue(val.Interface()))
 		}
 
 		// Compare old to new values now
